@@ -1095,6 +1095,12 @@ HLPread(accrec_t *access_rec, int32 length, void *datap)
     if (access_rec->posn + length > info->length)
         length = info->length - access_rec->posn;
 
+    /* nothing to transfer at the end of the element; a position beyond the end is an error */
+    if (length < 0)
+        HGOTO_ERROR(DFE_RANGE, FAIL);
+    if (length == 0)
+        HGOTO_DONE(0);
+
     /* search for linked block to start reading from */
     if (relative_posn < info->first_length) { /* first block */
         block_idx      = 0;
